@@ -259,7 +259,7 @@ def default_cases(ctx):
 
 
 PARTS = [
-    Part("pairs", prop, strategy=cases, quick=12000, thorough=200000),
+    Part("pairs", prop, strategy=cases, quick=12000, thorough=120000),
     Part("config-default", prop, strategy=default_cases, quick=1600, thorough=16000, shards=2),
 ]
 TIMEOUT = {"quick": 600, "thorough": 3600}
